@@ -100,6 +100,8 @@ func (s *Subscription) delete(ctx context.Context) error {
 	switch {
 	case err != nil:
 		return err
+	case len(res.Results) != 1:
+		return ua.StatusBadUnknownResponse
 	case res.Results[0] == ua.StatusOK:
 		s.itemsMu.Lock()
 		s.items = make(map[uint32]*monitoredItem)
